@@ -24,8 +24,9 @@ RULE = ('enumerated: four fixed small models (chain of 3, diamond, range '
         'eval(c) with c transitively dependent on i and v\' different from '
         "i's previous value; distinct by (model, history).")
 ASSUMPTIONS = [
-    'inputs are numbers; models are acyclic by construction; dependency '
-    'depth <= 5',
+    'inputs of the sampled models are numbers (two fixed models set '
+    'booleans, texts, blanks and floats of equal value); models are '
+    'acyclic by construction; sampled dependency depth <= 5',
     'histories that set an input through a defined name are exercised by '
     'C11/C03 models (names only exist on the workbook path)',
 ]
@@ -81,6 +82,16 @@ FIXED.append(
                   'Sheet1!B1': ['op', '*', ['ref', 'A1'], ['num', '2']],
                   'Sheet2!B1': ['op', '*', ['ref', 'A1'], ['num', '2']]},
      'sheets': ['Sheet1', 'Sheet2'], 'setvals': [50]})
+FIXED.append(
+    # a range of inputs of several KINDS under consumers that can tell
+    # Excel-equal values apart ('xyz' = 'XYZ', 0 = blank, 5 = 5.0 under
+    # Excel's "=", but CONCAT / COUNT / COUNTA see the difference)
+    {'inputs': {'Sheet1!A1': 'xyz', 'Sheet1!A2': 0, 'Sheet1!A3': 5},
+     'formulas': {'Sheet1!B1': ['call', 'CONCAT', [['range', 'A1:A3']]],
+                  'Sheet1!B2': ['call', 'COUNT', [['range', 'A1:A3']]],
+                  'Sheet1!B3': ['call', 'COUNTA', [['range', 'A1:A3']]],
+                  'Sheet1!B4': ['op', '&', ['ref', 'B1'], ['str', '!']]},
+     'sheets': ['Sheet1'], 'setvals': ['XYZ', None, 5.5], 'maxlen': 3})
 for _m in FIXED:
     _m['order'] = list(_m['formulas'])
 PLACEHOLDER = 987654321
@@ -116,6 +127,8 @@ def compile_named(model):
 
 
 def vtag(v):
+    if v is None:
+        return ('Z',)
     if isinstance(v, bool):
         return ('B', v)
     if isinstance(v, str):
@@ -134,6 +147,8 @@ def compile_with(model, inputs):
         if isinstance(v, bool):
             d[a] = PLACEHOLDER
             presets[a] = v
+        elif v is None:
+            del d[a]        # a blank input is an empty cell
     m = lib.compile_dict(d)
     ev = xl.Evaluator(m)
     for a, v in presets.items():
@@ -188,7 +203,8 @@ def enumerate_cases(tier, shard=0, nshards=1):
     for mi, m in enumerate(FIXED):
         alpha = _alphabet(m)
         # (the workbook path costs ~10 ms per history: one step shorter)
-        for n in range(1, maxlen + (0 if 'names' not in m else -1) + 1):
+        for n in range(1, min(maxlen, m.get('maxlen', 9)) +
+                       (0 if 'names' not in m else -1) + 1):
             for hist in itertools.product(range(len(alpha)), repeat=n):
                 # a history without eval observes nothing
                 if not any(alpha[h][0] == 'eval' for h in hist):
